@@ -81,6 +81,9 @@ type Env struct {
 	GiveCreate, GiveDelete, GivePatch map[string]bool
 	GiveStatus                        map[int]bool
 	GaveUp                            bool
+	// error class of a refused pod DELETE (by pod name): 0 / absent = InternalError, 1 Timeout, 2 ServerTimeout,
+	// 3 TooManyRequests, 4 Conflict, 5 InternalError; the delete is never applied when it is refused
+	DeleteClass map[string]int
 	Calls                             []Call
 	// objects the controller handed to Create (pods), for marker checks
 	Created []*v1.Pod
@@ -177,6 +180,17 @@ func (e *Env) installReactors() {
 		name, ns := da.GetName(), da.GetNamespace()
 		if e.FailDelete[name] {
 			e.Calls = append(e.Calls, Call{"delete", "pods", "", name, true})
+			gr := schema.GroupResource{Resource: "pods"}
+			switch e.DeleteClass[name] {
+			case 1:
+				return true, nil, apierrors.NewTimeoutError("injected fault: delete pod "+name+" timed out", 1)
+			case 2:
+				return true, nil, apierrors.NewServerTimeout(gr, "delete", 1)
+			case 3:
+				return true, nil, apierrors.NewTooManyRequests("injected fault: delete pod "+name, 1)
+			case 4:
+				return true, nil, apierrors.NewConflict(gr, name, fmt.Errorf("injected fault: the object has been modified"))
+			}
 			return true, nil, injected("delete pod " + name)
 		}
 		e.Calls = append(e.Calls, Call{"delete", "pods", "", name, false})
@@ -279,6 +293,7 @@ func (e *Env) BeginStep() {
 	e.GiveCreate, e.GiveDelete, e.GivePatch = map[string]bool{}, map[string]bool{}, map[string]bool{}
 	e.GiveStatus = map[int]bool{}
 	e.GaveUp = false
+	e.DeleteClass = map[string]int{}
 	e.FailPgCreate, e.FailPgUpdate = 0, 0
 	e.statusCalls = 0
 	e.Calls = nil
